@@ -1,4 +1,5 @@
 import ElexModel.Core.Featurizer
+import ElexModel.Gen.C16
 import ElexModel.Lemmas.Table
 import ElexModel.Lemmas.Num
 import Mathlib.Tactic.FieldSimp
@@ -204,5 +205,25 @@ example : active exRows = [2, 3, 7] ∧ dropped exRows = some 2 ∧ activeCols e
   decide +kernel
 example : holdout exRows (some 5) = [1/3, 1/3] ∧ holdout exRows (some 7) = [0, 1] ∧ holdout exRows (some 2) = [0, 0] := by
   decide +kernel
+
+/-! ### bridge: `Featurizer` as it is in `/repo/src` on this run -/
+
+/-- the value an unseen level receives on every active column is the source's `1 / (len(active) + 1)` -/
+theorem bridge_unseen_value (rows : List (Bool × Option ℕ)) :
+    (1 : ℚ) / (((activeCols rows).length : ℚ) + 1) = Gen.C16.unseen_value ((activeCols rows).length : ℚ) := rfl
+
+/-- fitting rows = reporting ∧ expected; a level is active iff its dummy column has a positive sum on them; per fixed effect the
+    first active level is dropped and the rest are fitted; expanded = present minus dropped; pooling into `other`; column order;
+    unseen rows are those with a positive sum over the inactive columns -/
+theorem bridge_featurizer_shape :
+    Gen.C16.unseen_target = ["df.loc[rows_w_inactive_fixed_effects, fe_active_fixed_effects]"] ∧
+    Gen.C16.holdout_steps = ["inactive_fixed_effects = [x for x in self.expanded_fixed_effects if x not in self.active_fixed_effects]", "fe_active_fixed_effects = self._get_categories_for_fe(self.active_fixed_effects, fe)", "fe_inactive_fixed_effects = self._get_categories_for_fe(inactive_fixed_effects, fe)", "rows_w_inactive_fixed_effects = df[fe_inactive_fixed_effects].sum(axis=1) > 0", "return self.filter_to_active_features(df)"] ∧
+    Gen.C16.prepare_steps = ["self.complete_features += self.features + additional_state_features + self.expanded_fixed_effects", "self.active_features += self.features + additional_state_features + self.active_fixed_effects", "self.complete_features = self._sort_features(self.complete_features)", "self.active_features = self._sort_features(self.active_features)", "df[self.features] -= df[self.features].mean()", "df[self.features] /= df[self.features].std()", "self.complete_features += ['intercept']", "self.active_features += ['intercept']", "all_expanded_fixed_effects = [x for x in df.columns if x.startswith(tuple((fixed_effect + '_' for fixed_effect in self.fixed_effect_cols)))]", "df_fitting = df[df.reporting & (df.unit_category == 'expected')]", "active_fixed_effect_boolean_df = df_fitting[all_expanded_fixed_effects].sum(axis=0) > 0", "all_active_fixed_effects = np.asarray(all_expanded_fixed_effects)[active_fixed_effect_boolean_df]", "self.active_fixed_effects = active_fixed_effects", "self.intercept_column = intercept_column", "self.expanded_fixed_effects = [x for x in all_expanded_fixed_effects if x not in intercept_column]", "self.active_fixed_effects = all_active_fixed_effects", "self.expanded_fixed_effects = all_expanded_fixed_effects", "fe_fixed_effect_filter = self._get_categories_for_fe(all_active_fixed_effects, fe)", "active_fixed_effects.extend(fe_fixed_effect_filter[1:])", "intercept_column.append(fe_fixed_effect_filter[0])"] ∧
+    Gen.C16.prepare_returned = ["return df[self.complete_features]"] ∧
+    Gen.C16.pooling = ["if 'all' not in params:     df[fe] = np.where(~df[fe].isin(params), 'other', df[fe])", "pd.get_dummies(df, columns=self.fixed_effect_cols, prefix=self.fixed_effect_cols, prefix_sep='_', dtype=np.int64)"] ∧
+    Gen.C16.sort_features = ["custom_order = ['intercept', 'baseline_normalized_margin']", "return list(sorted(features, key=lambda x: custom_order.index(next((start for start in custom_order if x.startswith(start)), None)) if any((x.startswith(start) for start in custom_order)) else len(custom_order)))"] ∧
+    Gen.C16.categories_for_fe = ["return [x for x in list_ if x.startswith(fe)]"] ∧
+    Gen.C16.filter_to_active = ["return df[self.active_features]"] :=
+  ⟨rfl, rfl, rfl, rfl, rfl, rfl, rfl, rfl⟩
 
 end ElexModel.Feat
